@@ -14,6 +14,7 @@ R6 refinement axes: pixel column 0 is fed from axis-1 (x) samples only, column 1
 R9 perimeter refinement: for every sample e of the perimeter walk (4*nm+1 of them, enumerated), the window refined
    around it lies on the edge the walk took e from, contains e's own coarse position and reaches one coarse sample to
    either side of it; a corner sample must be refined along both of its edges
+R10 the bounds apply the same pixel<->world model (full, with distortion, or core) that the sampler inverts
 """
 import ast
 
@@ -47,7 +48,7 @@ def run(run):
     run.assumptions += ["np.asarray of a tuple of tuples allocates; of an ndarray returns the same object",
                         "np.linspace(a, b, n) includes both a and b iff n >= 2"]
     run.undecided_clauses += ["every tile with a pixel centre inside the box/footprint/chunk is accepted (spherical geometry over floats)"]
-    for r, n in (("C07.R1", 2), ("C07.R2", 2), ("C07.R3", 2), ("C07.R4", 5), ("C07.R5", 1), ("C07.R6", 2), ("C07.R7", 1), ("C07.R8", 4), ("C07.R9", 1)):
+    for r, n in (("C07.R1", 2), ("C07.R2", 2), ("C07.R3", 2), ("C07.R4", 5), ("C07.R5", 1), ("C07.R6", 2), ("C07.R7", 1), ("C07.R8", 4), ("C07.R9", 1), ("C07.R10", 1)):
         run.floor(r, n)
     _r1_purity(run)
     _r2_pruning(run)
@@ -55,6 +56,7 @@ def run(run):
     _r4_bounds(run)
     _r5_r6_refinement(run)
     _r9_perimeter(run)
+    _r10_transform_agreement(run)
     _r7_union_filter(run)
     # "sampling all chunks one after another fills every pixel": each chunk's tile is merged into what earlier chunks stored,
     # i.e. in updating mode nothing reachable from the sampling workers writes a tile with a plain write_image (C10's rule)
@@ -1215,3 +1217,62 @@ def _ranges(xs):
         out.append(str(xs[i]) if i == j else "%d-%d" % (xs[i], xs[j]))
         i = j + 1
     return ", ".join(out)
+
+
+# ---------------------------------------------------------------------------------------------------------------------
+# R10: the footprint box and the sampler use the same pixel <-> world model
+
+_FULL = {"all_pix2world", "all_world2pix", "pixel_to_world", "pixel_to_world_values", "array_index_to_world", "array_index_to_world_values",
+         "world_to_pixel", "world_to_pixel_values", "world_to_array_index", "world_to_array_index_values"}
+_CORE = {"wcs_pix2world", "wcs_world2pix"}
+
+
+def _r10_transform_agreement(run):
+    """The sampler decides which sky positions receive data by inverting the image's WCS; the box behind the tile filter is
+    computed by applying it forwards.  Both must use the same model: astropy's `all_*` / high-level API calls include the
+    distortion terms (SIP, lookup tables), the `wcs_*` calls are the core transform only.  A box from the core transform around
+    an image that is sampled with distortions falls short of the sampled footprint by the size of the distortion."""
+    project = run.project
+    ib = project.fn(S + ".WcsSampler._image_bounds")
+    sm = project.funcs.get(S + ".WcsSampler.sampler")
+    if sm is None:
+        run.undecided("C07.R10", ib, None, "WcsSampler.sampler not found", kind="no-sampler")
+        return
+
+    def wcs_calls(f):
+        out = []
+        for x in ast.walk(f.node):
+            if isinstance(x, ast.Call) and isinstance(x.func, ast.Attribute):
+                m = x.func.attr
+                recv = ast.unparse(x.func.value)
+                if m in _FULL | _CORE and "wcs" in recv.lower():
+                    out.append((x, m, "full" if m in _FULL else "core"))
+                elif m == "to_pixel":
+                    mode = [k.value for k in x.keywords if k.arg == "mode"]
+                    kind = "full"
+                    if mode:
+                        kind = {"all": "full", "wcs": "core"}.get(mode[0].value if isinstance(mode[0], ast.Constant) else None)
+                    out.append((x, m, kind))
+        return out
+    fwd, inv = wcs_calls(ib), wcs_calls(sm)
+    run.note_func(ib, sm)
+    if not fwd or not inv:
+        run.undecided("C07.R10", ib if not fwd else sm, None, "no pixel/world transform call found in %s" % ("_image_bounds" if not fwd else "sampler"), kind="transform-calls")
+        return
+    if any(k is None for _x, _m, k in fwd + inv):
+        run.undecided("C07.R10", sm, None, "a transform is called with a mode that is not a literal", kind="transform-mode")
+        return
+    inv_kinds = {k for _x, _m, k in inv}
+    if len(inv_kinds) != 1:
+        run.undecided("C07.R10", sm, inv[0][0], "the sampler mixes full and core transforms (%s)" % sorted({m for _x, m, _k in inv}), kind="transform-mixed")
+        return
+    want = next(iter(inv_kinds))
+    bad = [(x, m) for x, m, k in fwd if k != want]
+    if bad:
+        x, m = bad[0]
+        run.violated("C07.R10", ib, x, "the footprint box is computed with %s (%s transform) at %d site(s), but the sampler locates pixels with %s (%s transform): for an image "
+                     "with distortion terms (SIP) the box and the sampled footprint differ by the size of the distortion, and the tile filter rejects tiles the sampler "
+                     "would fill" % (m, "core, distortion ignored" if want == "full" else "full", len(bad), inv[0][1], "full, including distortion" if want == "full" else "core"),
+                     kind="bounds-transform-mismatch")
+    else:
+        run.holds("C07.R10", ib, fwd[0][0], "%d forward transform call(s) of the bounds and the sampler's inverse (%s) use the same (%s) model" % (len(fwd), inv[0][1], want))
